@@ -170,11 +170,13 @@ func (a *AST) ToDFA() *auto.DFA {
 
 	for S, i := Dstates.Dequeue(); i >= 0; S, i = Dstates.Dequeue() {
 		for c := range a.charToPos { // for each input symbol c
-			if c != endMarker {
+			// The end-marker is told apart by its position (the last one), not by its character:
+			// the regular expression may itself contain the character that serves as the end-marker.
+			if c != endMarker || len(a.charToPos[c]) > 1 {
 				// Let U be the union of followpos(p) for all p in S that correspond to c
 				U := Poses{}
 				for _, p := range S {
-					if a.posToChar[p] == c {
+					if a.posToChar[p] == c && p != a.lastPos {
 						U = U.Union(a.followPos(p))
 					}
 				}
@@ -194,11 +196,9 @@ func (a *AST) ToDFA() *auto.DFA {
 	dfa.Final = auto.NewStates()
 
 	for i, S := range Dstates.Values() {
-		for _, f := range a.charToPos[endMarker] {
-			if S.Contains(f) {
-				dfa.Final.Add(auto.State(i))
-				break // The accepting states of D are all those sets of positions that include the position of the end-marker
-			}
+		// The accepting states of D are all those sets of positions that include the position of the end-marker
+		if S.Contains(a.lastPos) {
+			dfa.Final.Add(auto.State(i))
 		}
 	}
 
